@@ -196,7 +196,7 @@ impl Report {
             replay_paths.push(path.display().to_string());
         }
         let mut machinery_errors = self.machinery_errors.clone();
-        let hung = crate::sweep::ABANDONED.load(std::sync::atomic::Ordering::SeqCst) + crate::sweep::KILLED.load(std::sync::atomic::Ordering::SeqCst);
+        let hung = (crate::sweep::ABANDONED.load(std::sync::atomic::Ordering::SeqCst) + crate::sweep::KILLED.load(std::sync::atomic::Ordering::SeqCst)).saturating_sub(crate::sweep::NOT_REPRODUCED.load(std::sync::atomic::Ordering::SeqCst));
         if hung > 0 && new_viol.is_empty() {
             // an incomplete run without a finding is not a verdict
             machinery_errors.push(format!("{hung} execution(s) exceeded the wall limit and were skipped (non-termination is C04's subject); this run is incomplete"));
